@@ -16,6 +16,8 @@ ev["coverage"]["selftest"] = {
     "benign_variants_false_alarm": t.get("FALSE-ALARM", 0),
     "seeded_changes_applied": sum(1 for r in st.get("results", []) if r.get("kind") == "seeded" and r.get("status") != "skipped"),
     "seeded_changes_detected": sum(1 for r in st.get("results", []) if r.get("kind") == "seeded" and r.get("status", "").startswith("killed")),
+    "independent_refactors_silent": sum(1 for r in st.get("results", []) if r.get("name", "").startswith("refactor-") and r.get("status") == "silent"),
+    "independent_refactors_false_alarm": sum(1 for r in st.get("results", []) if r.get("name", "").startswith("refactor-") and r.get("status") == "FALSE-ALARM"),
     "results": [{k: r[k] for k in ("name", "kind", "status") if k in r} for r in st.get("results", [])],
     "note": "scratch copies outside /repo; evidence about the checker only, never part of the verdict",
 }
